@@ -70,7 +70,7 @@ theorem step_stop_not_ok (env : Env) (nt : Ctx → Ctx × Outcome Tok) (c : Cfg)
   split at h
   · exact hp _ _ h
   · split at h
-    · exact hp _ _ h
+    · injection h with _ h2; subst h2; intro pr; simp
     · split at h
       · exact liftTok_stop_not_ok h
       · split at h
